@@ -182,3 +182,7 @@ def run(ck: Check, repo: Repo) -> None:
     rule_ambiguity(ck, repo, folder)
     rule_writer_finder(ck, repo, folder)
     rule_finder_predicate(ck, repo)
+    # the year range annotate writes must already be in the form the merger produces (min - max): otherwise the second
+    # run with --merge-copyrights rewrites the line the first run wrote (table shared with C20-R4)
+    from . import c20
+    c20.rule_get_year(ck, repo, "R7")
